@@ -84,17 +84,24 @@ func domDivide(a, a2 Amount) bool {
 	return vrt.And(vrt.And(inDom(a2.value), a2.value != 0), vrt.MulFits(a.value, specPow10[a2.exp], dom52))
 }
 
+// lemmaMaxExp: layer 0 is proved for the rounding-relevant exponents 0..lemmaMaxExp
+// in every tier; the summaries are only usable inside that bound.
+const lemmaMaxExp = 9
+
 func sumRescale(a Amount, exp uint32) Amount {
+	vrt.Assume(vrt.And(a.exp <= lemmaMaxExp, exp <= lemmaMaxExp))
 	vrt.Assume(domRescale(a, exp))
 	return specRescale(a, exp)
 }
 
 func sumMultiply(a, a2 Amount) Amount {
+	vrt.Assume(a2.exp <= lemmaMaxExp)
 	vrt.Assume(domMultiply(a, a2))
 	return specMultiply(a, a2)
 }
 
 func sumDivide(a, a2 Amount) Amount {
+	vrt.Assume(a2.exp <= lemmaMaxExp)
 	vrt.Assume(domDivide(a, a2))
 	return specDivide(a, a2)
 }
@@ -107,9 +114,21 @@ func symAmount(name string) Amount {
 
 // ---------------------------------------------------------------- layer 0
 
+// lemmaAmount: value symbolic in the domain, exponent enumerated over 0..lemmaMaxExp.
+func lemmaAmount(name string) Amount {
+	v := vrt.Int64In(name+".v", -dom52+1, dom52-1)
+	return Amount{v, uint32(vrt.Choice(name+".e", lemmaMaxExp+1))}
+}
+
+// passAmount: exponent symbolic (it is only passed through by Multiply/Divide).
+func passAmount(name string) Amount {
+	v := vrt.Int64In(name+".v", -dom52+1, dom52-1)
+	return Amount{v, vrt.Uint32In(name+".e", 0, 18)}
+}
+
 func H_C05_L0_Rescale() {
-	a := symAmount("a")
-	e2 := uint32(vrt.Choice("e2", nexp()))
+	a := lemmaAmount("a")
+	e2 := uint32(vrt.Choice("e2", lemmaMaxExp+1))
 	vrt.Assume(domRescale(a, e2))
 	want := specRescale(a, e2)
 	got := a.Rescale(e2)
@@ -123,8 +142,8 @@ func H_C05_L0_Rescale() {
 }
 
 func H_C05_L0_Multiply() {
-	a := symAmount("a")
-	b := symAmount("b")
+	a := passAmount("a")
+	b := lemmaAmount("b")
 	vrt.Assume(domMultiply(a, b))
 	want := specMultiply(a, b)
 	got := a.Multiply(b)
@@ -133,8 +152,8 @@ func H_C05_L0_Multiply() {
 }
 
 func H_C05_L0_Divide() {
-	a := symAmount("a")
-	b := symAmount("b")
+	a := passAmount("a")
+	b := lemmaAmount("b")
 	vrt.Assume(domDivide(a, b))
 	want := specDivide(a, b)
 	got := a.Divide(b)
